@@ -9,8 +9,10 @@ hoisted globals and `...` barriers counting as "no local"), preserved by every p
 innermost scope changed) for statements; one mutual structural recursion over the syntax tree.
 -/
 import Selene.Scope.Ordered
+import Selene.Scope.Safe
 namespace Selene.Scope.CoreProof
 open Selene.Lua Selene.Scope.Spec Selene.Scope.Core Selene.Scope.Ordered
+open Selene.Scope.Safe (Step)
 
 set_option linter.unusedSectionVars false
 
@@ -53,15 +55,17 @@ theorem look_bind (env : Env) (t : Tok) (name : String) (k : DeclKind) (n : Stri
 
 /-! ### answers -/
 
+variable [NameFilter]
+
 theorem log_push (σ : St) (r : Ref) :
     St.log { σ with refs := σ.refs ++ [r] } =
-      σ.log ++ (if r.counted = true then [r.ans] else []) := by
+      σ.log ++ (if (r.counted && r.kept) = true then [r.ans] else []) := by
   simp only [St.log, List.filter_append, List.map_append]
-  by_cases h : r.counted = true <;> simp [h]
+  by_cases h : (r.counted && r.kept) = true <;> simp [h]
 
 theorem ans_rewrite (name : String) (d : Nat) (r : Ref) : (rewrite name (d, true) r).ans = r.ans := by
   unfold rewrite; split
-  · rename_i h; simp [Ref.ans, localBinding, h.2.1, h.2.2]
+  · rename_i h; simp [Ref.ans, localBinding, h.2.1, h.2.2.1, h.2.2.2]
   · rfl
 
 theorem log_rewrite (σ : St) (name : String) (d : Nat) :
@@ -71,7 +75,8 @@ theorem log_rewrite (σ : St) (name : String) (d : Nat) :
   | nil => simp
   | cons r rest ih =>
     have hc : (rewrite name (d, true) r).counted = r.counted := by unfold rewrite; split <;> rfl
-    simp only [List.map_cons, List.filter_cons, hc]
+    have hk : (rewrite name (d, true) r).kept = r.kept := by unfold rewrite; split <;> rfl
+    simp only [List.map_cons, List.filter_cons, hc, hk]
     split <;> simp [ih, ans_rewrite]
 
 /-! ### how a traversal relates its start and end states -/
@@ -80,24 +85,26 @@ structure Pure (σ σ' : St) (out : List Ans) : Prop where
   stack : σ'.stack = σ.stack
   fd : σ'.fdepth = σ.fdepth
   ans : σ'.log = σ.log ++ out
+  safe : Step σ σ'          -- the hoisting invariants of `Scope/Safe.lean` are carried along
 
 structure Grow (σ σ' : St) (out : List Ans) : Prop where
   stack : ∃ hd hd' tl, σ.stack = hd :: tl ∧ σ'.stack = hd' :: tl
   fd : σ'.fdepth = σ.fdepth
   ans : σ'.log = σ.log ++ out
+  safe : Step σ σ'
 
-theorem Pure.refl (σ : St) : Pure σ σ [] := ⟨rfl, rfl, by simp⟩
+theorem Pure.refl (σ : St) : Pure σ σ [] := ⟨rfl, rfl, by simp, Step.refl σ⟩
 
 theorem Pure.trans {σ₁ σ₂ σ₃ : St} {o₁ o₂ : List Ans} (h₁ : Pure σ₁ σ₂ o₁) (h₂ : Pure σ₂ σ₃ o₂) :
     Pure σ₁ σ₃ (o₁ ++ o₂) :=
-  ⟨h₂.stack.trans h₁.stack, h₂.fd.trans h₁.fd, by rw [h₂.ans, h₁.ans, List.append_assoc]⟩
+  ⟨h₂.stack.trans h₁.stack, h₂.fd.trans h₁.fd, by rw [h₂.ans, h₁.ans, List.append_assoc], h₁.safe.trans h₂.safe⟩
 
 theorem Pure.rel {σ σ' : St} {o : List Ans} {inF : Bool} {env : Env} (h : Pure σ σ' o)
     (r : Rel σ.stack σ.fdepth inF env) : Rel σ'.stack σ'.fdepth inF env := by
   rw [h.stack, h.fd]; exact r
 
 theorem Pure.grow {σ σ' : St} {o : List Ans} (h : Pure σ σ' o) (ne : σ.stack ≠ []) : Grow σ σ' o := by
-  refine ⟨?_, h.fd, h.ans⟩
+  refine ⟨?_, h.fd, h.ans, h.safe⟩
   cases hs : σ.stack with
   | nil => exact absurd hs ne
   | cons hd tl => exact ⟨hd, hd, tl, rfl, by rw [h.stack, hs]⟩
@@ -109,27 +116,32 @@ theorem Grow.trans {σ₁ σ₂ σ₃ : St} {o₁ o₂ : List Ans} (h₁ : Grow 
   rw [e2] at e3
   injection e3 with e5 e6
   subst e6
-  exact ⟨⟨hd, hd2', tl, e1, e4⟩, h₂.fd.trans h₁.fd, by rw [h₂.ans, h₁.ans, List.append_assoc]⟩
+  exact ⟨⟨hd, hd2', tl, e1, e4⟩, h₂.fd.trans h₁.fd, by rw [h₂.ans, h₁.ans, List.append_assoc], h₁.safe.trans h₂.safe⟩
 
 theorem Grow.pure {σ₁ σ₂ σ₃ : St} {o₁ o₂ : List Ans} (h₁ : Grow σ₁ σ₂ o₁) (h₂ : Pure σ₂ σ₃ o₂) :
     Grow σ₁ σ₃ (o₁ ++ o₂) := by
   obtain ⟨hd, hd', tl, e1, e2⟩ := h₁.stack
-  exact ⟨⟨hd, hd', tl, e1, by rw [h₂.stack, e2]⟩, h₂.fd.trans h₁.fd, by rw [h₂.ans, h₁.ans, List.append_assoc]⟩
+  exact ⟨⟨hd, hd', tl, e1, by rw [h₂.stack, e2]⟩, h₂.fd.trans h₁.fd, by rw [h₂.ans, h₁.ans, List.append_assoc], h₁.safe.trans h₂.safe⟩
 
 theorem Pure.thenGrow {σ₁ σ₂ σ₃ : St} {o₁ o₂ : List Ans} (h₁ : Pure σ₁ σ₂ o₁) (h₂ : Grow σ₂ σ₃ o₂) :
     Grow σ₁ σ₃ (o₁ ++ o₂) := by
   obtain ⟨hd, hd', tl, e1, e2⟩ := h₂.stack
-  exact ⟨⟨hd, hd', tl, by rw [← h₁.stack, e1], e2⟩, h₂.fd.trans h₁.fd, by rw [h₂.ans, h₁.ans, List.append_assoc]⟩
+  exact ⟨⟨hd, hd', tl, by rw [← h₁.stack, e1], e2⟩, h₂.fd.trans h₁.fd, by rw [h₂.ans, h₁.ans, List.append_assoc], h₁.safe.trans h₂.safe⟩
 
 /-- a traversal that ran inside a scope opened on top of `σ` and whose scope is closed again -/
+theorem closed_step {σ σ₁ σ₂ : St} (hs : Step σ σ₁) (h : Step σ₁ σ₂) (hst : σ₂.close.stack = σ.stack) :
+    Step σ σ₂.close :=
+  ⟨fun i => Safe.close_inv _ (h.inv (hs.inv i)),
+   fun n hn i g => ⟨by rw [hst]; exact g.1, (h.good n hn (hs.inv i) (hs.good n hn i g)).2⟩⟩
+
 theorem Grow.closed {σ σ₁ σ₂ : St} {o₁ o : List Ans} {hd : Scope}
     (hopen : σ₁.stack = hd :: σ.stack) (hfd : σ₁.fdepth = σ.fdepth) (hans : σ₁.log = σ.log ++ o₁)
-    (h : Grow σ₁ σ₂ o) : Pure σ σ₂.close (o₁ ++ o) := by
+    (hsafe : Step σ σ₁) (h : Grow σ₁ σ₂ o) : Pure σ σ₂.close (o₁ ++ o) := by
   obtain ⟨h1, h2, tl, e1, e2⟩ := h.stack
   rw [hopen] at e1
   injection e1 with _ e3
   subst e3
-  refine ⟨by simp [St.close, e2], by simp [St.close, h.fd, hfd], ?_⟩
+  refine ⟨by simp [St.close, e2], by simp [St.close, h.fd, hfd], ?_, closed_step hsafe h.safe (by simp [St.close, e2])⟩
   have : σ₂.close.log = σ₂.log := rfl
   rw [this, h.ans, hans, List.append_assoc]
 
@@ -143,35 +155,31 @@ theorem read_pure (σ : St) (t : Tok) {inF : Bool} {env : Env} (r : Rel σ.stack
     simp only [h, h', and_self, if_true]
     exact Pure.refl σ
   · have h' : ¬ (inF = false ∧ t.text = "...") := fun hh => h ⟨r.fd.mpr hh.1, hh.2⟩
+    have hs : Step σ (σ.read t) := Safe.read_step σ t
+    unfold St.read at hs
+    simp only [h, if_false] at hs
     simp only [h, h', if_false]
-    refine ⟨rfl, rfl, ?_⟩
+    refine ⟨rfl, rfl, ?_, hs⟩
     rw [log_push]
-    simp [Ref.ans, localBinding_eq, r.env]
+    by_cases hk : NameFilter.read t.text = true <;> simp [Ref.ans, Ref.kept, localBinding_eq, r.env, hk]
 
-theorem read_uncounted_pure (σ : St) (t : Tok) : Pure σ (σ.read t false) [] := by
-  unfold St.read
-  split
-  · exact Pure.refl σ
-  · refine ⟨rfl, rfl, ?_⟩
-    rw [log_push]; simp
-
-theorem define_grow (σ : St) (e : Entry) (ne : σ.stack ≠ []) :
+theorem define_grow (σ : St) (e : Entry) (ne : σ.stack ≠ [])
+    (hbar : e.info = none → e.name = "...") (hnh : ∀ d, e.info ≠ some (d, true)) :
     Grow σ (σ.define e) [] ∧ ∃ hd tl, σ.stack = hd :: tl ∧ (σ.define e).stack = (e :: hd) :: tl := by
   cases hs : σ.stack with
   | nil => exact absurd hs ne
   | cons hd tl =>
     have hst : (σ.define e).stack = (e :: hd) :: tl := by simp [St.define, hs]
-    refine ⟨⟨⟨hd, e :: hd, tl, hs, hst⟩, by simp [St.define, hs], by simp [St.define, hs, St.log]⟩, hd, tl, rfl, hst⟩
-
-variable [NameFilter]
+    refine ⟨⟨⟨hd, e :: hd, tl, hs, hst⟩, by simp [St.define, hs], by simp [St.define, hs, St.log],
+      Safe.define_step σ e ne hbar hnh⟩, hd, tl, rfl, hst⟩
 
 theorem logDecl_pure (σ : St) (t : Tok) (name : String) {inF : Bool} {env : Env}
     (r : Rel σ.stack σ.fdepth inF env) : Pure σ (σ.logDecl t name) (sDecl env t name) := by
-  refine ⟨rfl, rfl, ?_⟩
+  refine ⟨rfl, rfl, ?_, Safe.logDecl_step σ t name⟩
   unfold St.logDecl
   simp only
   rw [log_push]
-  by_cases hk : NameFilter.keep name = true <;> simp [Ref.ans, sDecl, localBinding_eq, r.env, hk]
+  by_cases hk : NameFilter.keep name = true <;> simp [Ref.ans, Ref.kept, sDecl, localBinding_eq, r.env, hk]
 
 theorem local_grow (σ : St) (t : Tok) (name : String) (k : DeclKind) {inF : Bool} {env : Env}
     (r : Rel σ.stack σ.fdepth inF env) :
@@ -179,7 +187,7 @@ theorem local_grow (σ : St) (t : Tok) (name : String) (k : DeclKind) {inF : Boo
     Rel (σ.declare t name).stack (σ.declare t name).fdepth inF (bindTok env t name k) := by
   have p := logDecl_pure σ t name r
   have r0 := p.rel r
-  obtain ⟨g, hd, tl, e1, e2⟩ := define_grow (σ.logDecl t name) { name := name, info := some (t.idx, false) } r0.ne
+  obtain ⟨g, hd, tl, e1, e2⟩ := define_grow (σ.logDecl t name) { name := name, info := some (t.idx, false) } r0.ne (by simp) (by simp)
   refine ⟨by simpa [St.declare, sDecl] using p.thenGrow g, ⟨by show (St.define _ _).stack ≠ []; rw [e2]; simp, by show (St.define _ _).fdepth = 0 ↔ _; rw [g.fd]; exact r0.fd, ?_⟩⟩
   intro n
   show lb (stackFind (St.define _ _).stack n) = _
@@ -193,7 +201,7 @@ theorem barrier_grow (σ : St) {inF : Bool} {env : Env} (r : Rel σ.stack σ.fde
     Grow σ (σ.define { name := "...", info := none }) [] ∧
     Rel (σ.define { name := "...", info := none }).stack
         (σ.define { name := "...", info := none }).fdepth inF (("...", none) :: env) := by
-  obtain ⟨g, hd, tl, e1, e2⟩ := define_grow σ { name := "...", info := none } r.ne
+  obtain ⟨g, hd, tl, e1, e2⟩ := define_grow σ { name := "...", info := none } r.ne (by simp) (by simp)
   refine ⟨g, ⟨by rw [e2]; simp, by rw [g.fd]; exact r.fd, ?_⟩⟩
   intro n
   rw [e2, stackFind_define, look_cons]
@@ -201,28 +209,63 @@ theorem barrier_grow (σ : St) {inF : Bool} {env : Env} (r : Rel σ.stack σ.fde
   · simp [h, lb]
   · simp only [h, if_false]; rw [← e1]; exact r.env n
 
+theorem logWrite_pure (σ : St) (t : Tok) {inF : Bool} {env : Env} (r : Rel σ.stack σ.fdepth inF env) :
+    Pure σ (σ.logWrite t) (sAssign env t) := by
+  refine ⟨rfl, rfl, ?_, Safe.logWrite_step σ t⟩
+  unfold St.logWrite
+  simp only
+  rw [log_push]
+  have : localOf (stackFind σ.stack t.text) = look env t.text := r.env t.text
+  by_cases hk : NameFilter.assign t.text = true <;> cases hl : look env t.text <;>
+    simp [Ref.ans, Ref.kept, sAssign, this, hk, hl]
+
 /-- hoisting: a global definition is not a local binding, the environment is unchanged -/
 theorem hoist_grow (σ : St) (t : Tok) {inF : Bool} {env : Env} (r : Rel σ.stack σ.fdepth inF env) :
-    Grow σ (σ.hoist t) [] ∧ Rel (σ.hoist t).stack (σ.hoist t).fdepth inF env := by
-  unfold St.hoist
+    Grow σ (σ.hoist t) (sAssign env t) ∧ Rel (σ.hoist t).stack (σ.hoist t).fdepth inF env := by
+  have p := logWrite_pure σ t r
+  have r0 := p.rel r
+  have hstep := Safe.hoist_step σ t r.ne
+  rw [Safe.hoist_eq] at hstep ⊢
   cases hf : stackFind σ.stack t.text with
-  | some v => exact ⟨(Pure.refl σ).grow r.ne, r⟩
+  | some v => exact ⟨p.grow r.ne, r0⟩
   | none =>
-    obtain ⟨g, hd, tl, e1, e2⟩ := define_grow σ { name := t.text, info := some (t.idx, true) } r.ne
-    refine ⟨⟨g.stack, g.fd, ?_⟩, ⟨by simp [e2], by simpa using (g.fd ▸ r.fd), ?_⟩⟩
-    · have := log_rewrite (σ.define { name := t.text, info := some (t.idx, true) }) t.text t.idx
-      simp only at this ⊢
-      rw [this, g.ans]
+    simp only [hf] at hstep
+    show Grow σ (Safe.hoisted (σ.logWrite t) t) _ ∧ Rel (Safe.hoisted (σ.logWrite t) t).stack (Safe.hoisted (σ.logWrite t) t).fdepth inF env
+    have ne' : (σ.logWrite t).stack ≠ [] := r.ne
+    obtain ⟨hd, tl, e1, e2, e3⟩ := Safe.hoisted_facts (σ.logWrite t) t ne'
+    have e1' : σ.stack = hd :: tl := e1
+    have hfd : (Safe.hoisted (σ.logWrite t) t).fdepth = σ.fdepth := Safe.hoisted_fdepth (σ.logWrite t) t
+    refine ⟨⟨⟨hd, _, tl, e1', e2⟩, hfd, ?_, hstep⟩, ⟨by rw [e2]; simp, by rw [hfd]; exact r.fd, ?_⟩⟩
+    · have := log_rewrite (σ.logWrite t) t.text t.idx
+      have hl : (Safe.hoisted (σ.logWrite t) t).log = St.log { (σ.logWrite t) with refs := (σ.logWrite t).refs.map (rewrite t.text (t.idx, true)) } := by
+        simp only [St.log, e3]
+      rw [hl, this, p.ans]
     · intro n
-      simp only [e2]
-      rw [stackFind_define]
+      rw [e2, stackFind_define]
       by_cases h : t.text = n
       · subst h
         have := r.env t.text
         rw [hf] at this
         simp only [if_true, lb]
         simpa [lb] using this
-      · simp only [h, if_false]; rw [← e1]; exact r.env n
+      · simp only [h, if_false]; rw [← e1']; exact r.env n
+
+/-- `function f … end`: the name is read (not an occurrence the specification counts), then written -/
+theorem readHoist_grow (σ : St) (t : Tok) {inF : Bool} {env : Env} (r : Rel σ.stack σ.fdepth inF env) :
+    Grow σ ((σ.read t false).hoist t) (sAssign env t) ∧
+    Rel ((σ.read t false).hoist t).stack ((σ.read t false).hoist t).fdepth inF env := by
+  have hstep := Safe.readHoist_step σ t r.ne
+  -- the read: stack and depth unchanged, nothing counted
+  have hp : (σ.read t false).stack = σ.stack ∧ (σ.read t false).fdepth = σ.fdepth ∧ (σ.read t false).log = σ.log := by
+    unfold St.read
+    split
+    · exact ⟨rfl, rfl, rfl⟩
+    · refine ⟨rfl, rfl, ?_⟩
+      rw [log_push]; simp
+  have r1 : Rel (σ.read t false).stack (σ.read t false).fdepth inF env := by rw [hp.1, hp.2.1]; exact r
+  obtain ⟨g, rg⟩ := hoist_grow (σ.read t false) t r1
+  obtain ⟨hd, hd', tl, e1, e2⟩ := g.stack
+  exact ⟨⟨⟨hd, hd', tl, by rw [← hp.1]; exact e1, e2⟩, g.fd.trans hp.2.1, by rw [g.ans, hp.2.2], hstep⟩, rg⟩
 
 theorem open_rel (σ : St) {inF : Bool} {env : Env} (r : Rel σ.stack σ.fdepth inF env) :
     Rel σ.open.stack σ.open.fdepth inF env :=
@@ -406,7 +449,7 @@ theorem defineParams_grow (ps : List Param) (σ : St) (inF : Bool) (env : Env)
       exact ⟨by simpa [defineParams, St.local_, sDeclParams] using g1.trans g2,
         by simpa [defineParams, St.local_, bindParams] using r2⟩
     | dots t =>
-      obtain ⟨g, hd0, tl, e1, e2⟩ := define_grow σ { name := "...", info := some (t.idx, false) } r.ne
+      obtain ⟨g, hd0, tl, e1, e2⟩ := define_grow σ { name := "...", info := some (t.idx, false) } r.ne (by simp) (by simp)
       have r1 : Rel (σ.define { name := "...", info := some (t.idx, false) }).stack
           (σ.define { name := "...", info := some (t.idx, false) }).fdepth inF (bindTok env t "..." .varargParam) := by
         refine ⟨by rw [e2]; simp, by rw [g.fd]; exact r.fd, ?_⟩
@@ -432,7 +475,9 @@ theorem body_case (sp : Span) (params : List Param) (b : Block)
   have hc := Grow.closedK (σ := σ) (σ₁ := σ₀) 1 hs0 rfl (by simp [σ₀, St.open, St.log] : σ₀.log = σ.log ++ [])
     ((g1.trans g2).trans g3)
   obtain ⟨c1, c2, c3⟩ := hc
-  refine ⟨c1, ?_, ?_⟩
+  have hsafe : Step σ σ₀ := (Safe.open_step σ).trans (Safe.fdepth_step _ _)
+  have hcl := closed_step hsafe ((g1.trans g2).trans g3).safe c1
+  refine ⟨c1, ?_, ?_, hcl.trans (Safe.fdepth_step _ _)⟩
   · show (block (defineParams (σ₀.define { name := "...", info := none }) params) b).close.fdepth - 1 = σ.fdepth
     rw [c2]; simp
   · show (block (defineParams (σ₀.define { name := "...", info := none }) params) b).close.log = _
@@ -446,7 +491,7 @@ theorem open_answers (σ : St) : σ.open.log = σ.log ++ [] := by simp [St.open,
 
 /-- run something inside a fresh scope on top of `σ`, then close it -/
 theorem inScope {σ σ₂ : St} {o : List Ans} (g : Grow σ.open σ₂ o) : Pure σ σ₂.close o := by
-  have := Grow.closed (σ := σ) (σ₁ := σ.open) (hd := []) rfl rfl (open_answers σ) g
+  have := Grow.closed (σ := σ) (σ₁ := σ.open) (hd := []) rfl rfl (open_answers σ) (Safe.open_step σ) g
   simpa using this
 
 def ElifOK (l : ElseIfList) : Prop :=
@@ -606,16 +651,14 @@ theorem func_case (sp : Span) (name : FuncName) (body : FuncBody) (hbody : BodyO
   | cons base more =>
     -- the name itself
     have hname : ∃ σ₁, σ₁ = (if (!more.isEmpty || method.isSome) = true then σ.read base else (σ.read base false).hoist base) ∧
-        Grow σ σ₁ (if (!more.isEmpty || method.isSome) = true then sRead inF env base else []) ∧
+        Grow σ σ₁ (if (!more.isEmpty || method.isSome) = true then sRead inF env base else sAssign env base) ∧
         Rel σ₁.stack σ₁.fdepth inF env := by
       refine ⟨_, rfl, ?_⟩
       by_cases hl : (!more.isEmpty || method.isSome) = true
       · simp only [hl, if_true]
         exact (read_pure σ base r).block r rfl
       · simp only [hl]
-        have p := read_uncounted_pure σ base
-        obtain ⟨g, rg⟩ := hoist_grow _ base (p.rel r)
-        exact ⟨by simpa using p.thenGrow g, rg⟩
+        exact readHoist_grow σ base r
     obtain ⟨σ₁, hσ₁, g1, r1⟩ := hname
     subst hσ₁
     cases method with
@@ -629,7 +672,7 @@ theorem func_case (sp : Span) (name : FuncName) (body : FuncBody) (hbody : BodyO
       refine ⟨?_, inner.rel r1⟩
       have := g1.pure inner
       exact this.cast (by
-        show _ = (if (!more.isEmpty || (some m).isSome) = true then sRead inF env base else []) ++ sBody env (some m) body
+        show _ = (if (!more.isEmpty || (some m).isSome) = true then sRead inF env base else sAssign env base) ++ sBody env (some m) body
         rw [sBody_self])
 
 
@@ -646,7 +689,7 @@ theorem assignTargets_grow (vars : VarList) (es : ExprList) (σ : St) (inF : Boo
       | name n =>
         obtain ⟨g, rg⟩ := hoist_grow σ n r
         obtain ⟨g2, r2⟩ := assignTargets_grow rest .nil _ inF env rg
-        exact ⟨(g.trans g2).cast (by show _ = [] ++ [] ++ sTargets inF env rest .nil; simp), r2⟩
+        exact ⟨(g.trans g2).cast (by show _ = [] ++ sAssign env n ++ sTargets inF env rest .nil; simp), r2⟩
       | expr vsp p ss =>
         have h := eagerV_pure σ (.expr vsp p ss) r
         obtain ⟨g2, r2⟩ := assignTargets_grow rest .nil _ inF env (h.rel r)
@@ -657,7 +700,7 @@ theorem assignTargets_grow (vars : VarList) (es : ExprList) (σ : St) (inF : Boo
       | name n =>
         obtain ⟨g, rg⟩ := hoist_grow _ n (he.rel r)
         obtain ⟨g2, r2⟩ := assignTargets_grow rest es' _ inF env rg
-        exact ⟨((he.thenGrow g).trans g2).cast (by show _ = eE inF env e ++ [] ++ sTargets inF env rest es'; simp), r2⟩
+        exact ⟨((he.thenGrow g).trans g2).cast (by show _ = eE inF env e ++ sAssign env n ++ sTargets inF env rest es'; simp), r2⟩
       | expr vsp p ss =>
         have h := eagerV_pure _ (.expr vsp p ss) (he.rel r)
         obtain ⟨g2, r2⟩ := assignTargets_grow rest es' _ inF env ((he.trans h).rel r)
@@ -885,7 +928,8 @@ theorem log_answers (σ : St) : σ.log.filterMap Ans.readOf = σ.answers := by
   | nil => rfl
   | cons r rest ih =>
     simp only [List.filter_cons]
-    cases hc : r.counted <;> cases hd : r.decl <;> simp [List.filterMap_cons, ih, Ref.ans, Ans.readOf, hd]
+    cases hc : r.counted <;> cases hk : r.kept <;> cases hd : r.decl <;> cases hw : r.write <;>
+      simp [List.filterMap_cons, ih, Ref.ans, Ans.readOf, hd, hw]
 
 /-- the declarations among the answers -/
 theorem log_shadows (σ : St) : σ.log.filterMap Ans.declOf = σ.shadows := by
@@ -894,6 +938,32 @@ theorem log_shadows (σ : St) : σ.log.filterMap Ans.declOf = σ.shadows := by
   | nil => rfl
   | cons r rest ih =>
     simp only [List.filter_cons]
-    cases hc : r.counted <;> cases hd : r.decl <;> simp [List.filterMap_cons, ih, Ref.ans, Ans.declOf, hd]
+    cases hc : r.counted <;> cases hk : r.kept <;> cases hd : r.decl <;> cases hw : r.write <;>
+      simp [List.filterMap_cons, ih, Ref.ans, Ans.declOf, hd, hw]
+
+/-- the global assignments among the answers -/
+theorem log_globalAssigns (σ : St) : σ.log.filterMap Ans.assignOf = σ.globalAssigns := by
+  simp only [St.log, St.globalAssigns]
+  induction σ.refs with
+  | nil => rfl
+  | cons r rest ih =>
+    simp only [List.filter_cons]
+    cases hc : r.counted <;> cases hk : r.kept <;> cases hd : r.decl <;> cases hw : r.write <;>
+      simp [List.filterMap_cons, ih, Ref.ans, Ans.assignOf, hd, hw]
+
+theorem mem_answers (σ : St) (t : Nat) (d : Option Nat) :
+    (t, d) ∈ σ.answers ↔ ∃ r ∈ σ.refs, r.counted = true ∧ r.kept = true ∧ r.decl = false ∧ r.write = false ∧
+      r.tok = t ∧ localBinding r = d := by
+  simp only [St.answers, List.mem_map, List.mem_filter, Prod.mk.injEq, Bool.and_eq_true, Bool.not_eq_true']
+  constructor
+  · rintro ⟨r, ⟨hr, ⟨⟨h1, h2⟩, h3⟩, h4⟩, h5, h6⟩; exact ⟨r, hr, h1, h2, h3, h4, h5, h6⟩
+  · rintro ⟨r, hr, h1, h2, h3, h4, h5, h6⟩; exact ⟨r, ⟨hr, ⟨⟨h1, h2⟩, h3⟩, h4⟩, h5, h6⟩
+
+theorem mem_globalAssigns (σ : St) (t : Nat) :
+    t ∈ σ.globalAssigns ↔ ∃ r ∈ σ.refs, r.counted = true ∧ r.kept = true ∧ r.decl = false ∧ r.write = true ∧ r.tok = t := by
+  simp only [St.globalAssigns, List.mem_map, List.mem_filter, Bool.and_eq_true, Bool.not_eq_true']
+  constructor
+  · rintro ⟨r, ⟨hr, ⟨⟨h1, h2⟩, h3⟩, h4⟩, h5⟩; exact ⟨r, hr, h1, h2, h3, h4, h5⟩
+  · rintro ⟨r, hr, h1, h2, h3, h4, h5⟩; exact ⟨r, ⟨hr, ⟨⟨h1, h2⟩, h3⟩, h4⟩, h5⟩
 
 end Selene.Scope.CoreProof
